@@ -184,6 +184,7 @@ class MethodInfo:
         self.memo_sets = {}     # field -> line
         self.memo_dels = {}     # field -> line
         self.memo_guards = set()
+        self.component_calls = {}   # (path of the receiver, method name) -> [lines]   for calls  self.<component>.<method>(...)
         self.decorators = []
         self.returns = []
 
@@ -232,8 +233,26 @@ class ClassFrames:
             if isinstance(e.slice, ast.Constant) and isinstance(e.slice.value, str):
                 return f"{b}[{e.slice.value}]"
             return b        # element/slice of the object at b: same object for frame purposes
+        if isinstance(e, ast.IfExp):
+            return self._path(e.body, aliases) or self._path(e.orelse, aliases)       # may-alias: either branch
+        if isinstance(e, ast.BoolOp):
+            for v in e.values:
+                p_ = self._path(v, aliases)
+                if p_:
+                    return p_
+            return None
+        if isinstance(e, ast.NamedExpr):
+            return self._path(e.value, aliases)
         if isinstance(e, ast.Call):
             f = e.func
+            # numpy wrappers that return their argument itself (or a view of it) when it already is a suitable array
+            fname = ast.unparse(f).split(".")[-1]
+            if fname in ("asarray", "asanyarray", "ascontiguousarray", "asfortranarray", "atleast_1d", "atleast_2d", "atleast_3d", "ravel", "squeeze",
+                         "reshape", "transpose", "swapaxes", "broadcast_to", "diagonal", "real", "imag") and e.args \
+                    and not (isinstance(f, ast.Attribute) and self._path(f.value, aliases)):
+                p_ = self._path(e.args[0], aliases)
+                if p_:
+                    return p_
             if isinstance(f, ast.Name) and f.id == "getattr" and len(e.args) >= 2 and isinstance(e.args[1], ast.Constant):
                 b = self._path(e.args[0], aliases)
                 return None if b is None else b + "." + str(e.args[1].value)
@@ -259,6 +278,14 @@ class ClassFrames:
                             and isinstance(n.args[0], ast.Name) and n.args[0].id == "self" and isinstance(n.args[1], ast.Constant) \
                             and str(n.args[1].value).startswith("_"):
                         self._fillers[name] = n.args[1].value
+                    if isinstance(n, ast.Assign):
+                        for t in n.targets:
+                            if isinstance(t, ast.Attribute) and isinstance(t.value, ast.Name) and t.value.id == "self" and t.attr.startswith("_") \
+                                    and name not in ("__init__",) and any(isinstance(g, ast.Call) and ast.unparse(g.func) == "hasattr" and len(g.args) == 2
+                                                                          and isinstance(g.args[1], ast.Constant) and g.args[1].value == t.attr for g in ast.walk(node)) \
+                                    and any(isinstance(r_, ast.Return) and r_.value is not None and ast.unparse(r_.value) in (f"self.{t.attr}", f"getattr(self, '{t.attr}')")
+                                            for r_ in ast.walk(node)):
+                                self._fillers.setdefault(name, t.attr)
         return self._fillers
 
     def _analyze(self, name):
@@ -273,15 +300,23 @@ class ClassFrames:
             if p and p.startswith("self") and p != "self":
                 info.writes.setdefault(p, (line, how))
 
-        def bind(target, path):
+        # statements nested in a compound statement execute conditionally: a rebinding there must not end an alias established before it
+        conditional = set()
+        for st in ast.walk(node):
+            if isinstance(st, (ast.If, ast.For, ast.While, ast.Try, ast.With)) and st is not node:
+                for sub in ast.walk(st):
+                    if sub is not st:
+                        conditional.add(id(sub))
+
+        def bind(target, path, at=None):
             if isinstance(target, ast.Name):
                 if path:
                     aliases[target.id] = path
-                else:
+                elif at is None or id(at) not in conditional:
                     aliases.pop(target.id, None)
             elif isinstance(target, (ast.Tuple, ast.List)):
                 for el in target.elts:
-                    bind(el, path)
+                    bind(el, path, at)
 
         def const_strs(e):
             if isinstance(e, (ast.Tuple, ast.List, ast.Set)) and e.elts and all(isinstance(x, ast.Constant) and isinstance(x.value, str) for x in e.elts):
@@ -326,7 +361,7 @@ class ClassFrames:
                 p = self._path(n.value, aliases)
                 for t in n.targets:
                     if isinstance(t, (ast.Name, ast.Tuple, ast.List)):
-                        bind(t, p if (p and p != "self") else None)
+                        bind(t, p if (p and p != "self") else None, n)
                     else:
                         note_write(self._path(t, aliases), n.lineno, "store")
             elif isinstance(n, ast.AugAssign):
@@ -371,6 +406,8 @@ class ClassFrames:
                     b = self._path(f.value, aliases)
                     if b == "self" and f.attr in self.methods and f.attr not in self.props:
                         info.self_calls.setdefault(f.attr, []).append(n.lineno)
+                    elif b and b.startswith("self.") and b.count(".") == 1 and "[" not in b and f.attr not in INPLACE_METHODS:
+                        info.component_calls.setdefault((b, f.attr), []).append(n.lineno)
                     elif b and b != "self" and f.attr in INPLACE_METHODS:
                         if f.attr == "pop" and b.startswith("self.__dict__"):
                             if n.args and isinstance(n.args[0], ast.Constant):
